@@ -375,7 +375,7 @@ impl<T: ObjectStore> ObjectStore for MetaStore<T> {
     }
 
     async fn get_opts(&self, location: &Path, options: GetOptions) -> Result<GetResult> {
-        let mut retried = false;
+        let mut missing: Option<Option<String>> = None;
         loop {
             let meta = self.inner.get_meta(location).await?;
             let mut options = options.clone();
@@ -408,9 +408,11 @@ impl<T: ObjectStore> ObjectStore for MetaStore<T> {
                     // The cached pointer — generational or legacy — may be
                     // stale after a concurrent overwrite: the generation was
                     // replaced and reclaimed, or the legacy payload was
-                    // migrated away. Re-resolve once.
-                    if !retried {
-                        retried = true;
+                    // migrated away. Re-resolve for as long as the pointer
+                    // keeps moving; give up only when the very generation
+                    // that was just re-resolved is missing.
+                    if missing.as_ref() != Some(&meta.generation) {
+                        missing = Some(meta.generation.clone());
                         self.inner.refresh_meta(location).await?;
                         continue;
                     }
@@ -429,7 +431,7 @@ impl<T: ObjectStore> ObjectStore for MetaStore<T> {
             return Ok(Vec::new());
         }
 
-        let mut retried = false;
+        let mut missing: Option<Option<String>> = None;
         loop {
             let meta = self.inner.get_meta(location).await?;
             validate_ranges("MetaStore", ranges, meta.size)?;
@@ -440,8 +442,8 @@ impl<T: ObjectStore> ObjectStore for MetaStore<T> {
             match self.inner.store.get_ranges(&payload_path, ranges).await {
                 Ok(rt) => return Ok(rt),
                 Err(Error::NotFound { source, .. }) => {
-                    if !retried {
-                        retried = true;
+                    if missing.as_ref() != Some(&meta.generation) {
+                        missing = Some(meta.generation.clone());
                         self.inner.refresh_meta(location).await?;
                         continue;
                     }
